@@ -118,6 +118,11 @@ func runHex(cfg *config, res *monitor.Result) {
 	classes := map[string]int64{}
 	var evals int64
 	r := monitor.NewRand(cfg.seed, "hex", cfg.shard)
+	type keptHex struct {
+		got, want []byte
+		text      string
+	}
+	var kept [8]keptHex
 	for i := 0; i < n/cfg.nshard; i++ {
 		var b []byte
 		switch r.Intn(5) {
@@ -151,6 +156,18 @@ func runHex(cfg *config, res *monitor.Result) {
 			res.Violate("C20:hex:valid-rejected:"+deco, "ParseAnnotatedHex rejected a valid annotated rendering: "+err.Error(), map[string]any{"text": hr.text, "bytes": monitor.Hex(b)})
 		case !bytes.Equal(got, b):
 			res.Violate("C20:hex:wrong-bytes:"+deco, fmt.Sprintf("ParseAnnotatedHex returned %x, the digits outside comments denote %x", clip(got), clip(b)), map[string]any{"text": hr.text, "bytes": monitor.Hex(b)})
+		default:
+			// the caller keeps what it was given: the last 8 results must still hold their bytes after later calls
+			kept[i%len(kept)] = keptHex{got: got, want: b, text: hr.text}
+			if i%8 == 7 {
+				for _, k := range kept {
+					evals++
+					if k.got != nil && !bytes.Equal(k.got, k.want) {
+						res.Violate("C20:hex:result-changed-by-later-call", fmt.Sprintf("a result of ParseAnnotatedHex changed after later calls: now %x, the text denotes %x", clip(k.got), clip(k.want)), map[string]any{"text": k.text, "bytes": monitor.Hex(k.want)})
+					}
+				}
+				classes["hex/kept-results-rechecked"]++
+			}
 		}
 		if i < 2 && cfg.shard == 0 {
 			res.Sample(map[string]any{"family": "annotated hex", "text": hr.text, "bytes": monitor.Hex(b)})
